@@ -79,6 +79,11 @@ func suitePollFail(e *vh.Env) {
 		}
 		fp := &failingProxy{kind: kind}
 		client := &http.Client{Transport: fp}
+		// the back-off schedule does not depend on other settings: run with the default -proxy-timeout, with 0 ("no
+		// timeout", legal for http.Client) and with a short one
+		savedTimeout := *proxyTimeout
+		*proxyTimeout = []time.Duration{60 * time.Second, 0, 40 * time.Millisecond}[i%3]
+		kind = fmt.Sprintf("%s (proxy-timeout %v)", kind, *proxyTimeout)
 		// the classification first, on a single call
 		_, err := utils.ListPendingRequests(client, *proxy, "backend-1", nil)
 		if err == nil {
@@ -117,6 +122,7 @@ func suitePollFail(e *vh.Env) {
 				break
 			}
 		}
+		*proxyTimeout = savedTimeout
 		e.Eval(kind, true)
 		e.Count(kind)
 		e.Sample(map[string]interface{}{"failure": kind, "list_calls_in_500ms": len(calls)})
